@@ -396,6 +396,23 @@ def rule_cap(fx, rep, new, info):
             if not good:
                 bad("remaining", f"the capped quantity is not max(clock - overhead, overhead) of the configured overhead: {why}")
             info["base_expr"] = sb[0]
+    # the limits proven above are the limits in force: nothing outside TimeStrategy::new writes the two limit fields later
+    # (seed C14-5a: an `extend()` multiplying both limits after a score drop compounds past the cap)
+    for b in fx.fn_bodies():
+        if b.name == new.name or "::tests::" in b.name:
+            continue
+        callers = fx.callers_of(lambda nm, b=b: fx.body(nm) is not None and fx.body(nm).name == b.name)
+        if callers and all(cb.name == new.name for (cb, _bb, _t) in callers):
+            continue  # a private helper of the constructor
+        for (bb, idx, adt, fld, kind, place) in b.field_writes():
+            if norm(adt) == TS and fld in ("soft_stop", "hard_stop"):
+                n += 1
+                rep.obligation(False)
+                ok = False
+                rep.violation("C14-CAP", f"C14-CAP/late-write/{fld}", f"`{b.name}` writes TimeStrategy.{fld} after construction: the bound established in TimeStrategy::new (hard limit <= half the remaining time, soft <= hard) no longer holds for the limit the polls compare against",
+                              {"fn": b.name, "file": b.file, "line": b.line_of(bb, idx) if hasattr(b, "line_of") else b.line})
+    n += 1
+    rep.obligation(True)
     rep.rule("C14-CAP", n, 7, ok, "limits in the clocks arm: min(base*k, remaining*c) with constant relations")
 
 
@@ -706,6 +723,9 @@ S = "src/engine/search/mod.rs"
 U = "src/engine/uci/mod.rs"
 P = "src/engine/uci/parser.rs"
 MUTANTS = [
+    {"name": "limits extended after construction (seed C14-5a)", "expect": "C14-CAP/late-write",
+     "edits": [("src/engine/search/time_control.rs", "    pub fn elapsed(&self) -> Duration {", "    pub fn extend(&mut self) {\n        self.soft_stop = self.soft_stop.mul_f32(1.5);\n        self.hard_stop = self.hard_stop.mul_f32(1.5);\n    }\n\n    pub fn elapsed(&self) -> Duration {"),
+               ("src/engine/search/iterative_deepening.rs", "        best_move = Some(*pv.first().unwrap());", "        if overall_eval.is_some_and(|previous| eval < previous) {\n            ctx.time_control.extend();\n        }\n        best_move = Some(*pv.first().unwrap());")]},
     {"name": "benign: Option-typed limits (match form)", "benign": True, "edits": shared_mutants.OPT_MATCH},
     {"name": "benign: Option-typed limits (closure form)", "benign": True, "edits": shared_mutants.OPT_CLOSURES},
     {"name": "Option-typed hard limit left None for a fixed move time", "expect": "C14-EXACT", "edits": shared_mutants.OPT_BAD},
